@@ -14,10 +14,12 @@ FLOAT_SAMPLES = [0.0, 1.5, -2.25e10]
 
 # ---------------------------------------------------------------- engine set-up
 
-def setup(formatting_stub=True, linear_to_bytes=True):
+def setup(formatting_stub=True, linear_to_bytes=True, int_str=False):
     if os.environ.get('VF_SYMBOLIC') == '1':
         from . import chpatches
         chpatches.install(formatting_stub=formatting_stub, linear_to_bytes=linear_to_bytes)
+        if int_str:
+            chpatches.int_str_roundtrip()
 
 
 def symbytes(bs):
